@@ -192,7 +192,7 @@ def expected_iana(form_langs):
     for lg in form_langs:
         if lg == "default" or len(lg) < 3:
             continue
-        m = re.search(r"\((.*)\)$", lg)
+        m = re.search(r"\(([^()]*)\)$", lg)  # the code is the LAST parenthesised part: "Chinese (Simplified) (zh)" carries zh
         if not m or m.group(1) not in VALID_CODES:
             bad.append(lg)
     return [tuple(sorted(bad))] if bad else []
@@ -354,7 +354,7 @@ def run_shard(ctx):
             if o2.ok and o2.xform != o.xform:
                 ctx.viol("advisory:sheet-warning-changes-xform", f"sheet {nm!r} vs '_{nm}': XForm differs", {"sheets_md": common.sheets_to_md(sheets), "klass": "sheet-name"})
     # (c) language labels
-    labels = [f"Lang{k} ({c})" for k, c in enumerate(VALID_CODES)] + [f"Bad{k} ({c})" for k, c in enumerate(INVALID_CODES)] + ["English", "Français", "Kiswahili ()", "(en) English", "Eng (en) x"]
+    labels = [f"Lang{k} ({c})" for k, c in enumerate(VALID_CODES)] + [f"Bad{k} ({c})" for k, c in enumerate(INVALID_CODES)] + ["English", "Français", "Kiswahili ()", "(en) English", "Eng (en) x", "Chinese (Simplified) (zh)", "Português (Brasil) (pt)", "A (b) (zz9)", "B ((fr))"]
     for n, (a, b) in enumerate(itertools.combinations(labels, 2)):
         if not ctx.mine(n) or (ctx.tier == "quick" and n % 3):
             continue
